@@ -29,6 +29,21 @@ def run(R):
             out = R.path("stream", "huge-%d.ndjson" % j)
             R.run([exe, str(R.seed + j), "huge", out], env=env, ok_codes=(0, 70), timeout=3000)
             files += R.split_file(out, 4, "huge-%d" % j)
+        # Salsa20/12 and Salsa20/8: one call of 256 GiB + 64 MiB each (about ten minutes, in parallel), blocks 2^32.. judged by the oracle
+        import concurrent.futures
+        exe = R.cc("stream_driver", ["stream_driver.c"], CFGS[0][0], extra=["-Wno-deprecated-declarations"])
+        def wrap(v):
+            out = R.path("stream", "wrap32-%d.ndjson" % v)
+            R.run([exe, str(R.seed + v), "wrap32", out, str(v)], env=CFGS[0][1], ok_codes=(0, 70), timeout=3400)
+            return out
+        with concurrent.futures.ThreadPoolExecutor(2) as ex:
+            wf = list(ex.map(wrap, [4, 5]))
+        nw = sum(1 for f in wf for _ in open(f))
+        if nw == 8:
+            files += wf
+        else:
+            R.notes.append("wrap32 (256 GiB keystream of Salsa20/12 and Salsa20/8) could not be mapped here: %d of 8 records" % nw)
+        R.cov["wrap32_records"] = nw
     ngroups = nlen = 0
     distinct = set()
     for f in files:
